@@ -106,24 +106,38 @@ fn constructive() -> Vec<Vec<u8>> {
     out
 }
 
-/// the stored sample of `data` submitted as the second (delta) video frame
-fn stored_second_frame(codec: VCodec, data: &[u8]) -> Result<Option<Vec<u8>>, String> {
+/// the stored samples of a keyframe and of `data` submitted as the second (delta) video frame;
+/// `builder_ps`: the builder was also handed out-of-band parameter sets (with_sps / with_pps /
+/// with_vps, which only the fragmented entry point reads) - the stored samples are the same
+fn stored_frames(codec: VCodec, data: &[u8], builder_ps: bool) -> Result<Option<(Vec<u8>, Vec<u8>, Vec<u8>)>, String> {
     let cfg = Cfg::basic(codec, None, false);
     let (k, _) = video_frame(codec, true, true, 1, 4);
-    let ops = vec![Op::WV { pts: T(0.0), data: Bytes::new(k), key: true }, Op::WV { pts: T(0.5), data: Bytes::new(data.to_vec()), key: false }];
-    let ex = run_finished(&cfg, &ops);
-    if let Some((_, m)) = ex.panicked() {
-        return Err(m.to_string());
+    let ops = vec![Op::WV { pts: T(0.0), data: Bytes::new(k.clone()), key: true }, Op::WV { pts: T(0.5), data: Bytes::new(data.to_vec()), key: false }, Op::FinishInPlace];
+    let sink = crate::run::RecSink::default();
+    let st = sink.0.clone();
+    let mut b = crate::run::builder(&cfg, sink);
+    if builder_ps {
+        b = match codec {
+            VCodec::H265 => b.with_vps(oracle::frames::h265_vps(1)).with_sps(oracle::frames::h265_sps(1)).with_pps(oracle::frames::h265_pps(1)),
+            _ => b.with_sps(oracle::frames::h264_sps(1)).with_pps(oracle::frames::h264_pps(1)),
+        };
     }
-    if !ex.results[1].is_ok() || !ex.results[2].is_ok() {
+    let run = oracle::report::guarded(|| {
+        let mut m = b.build().ok();
+        ops.iter().map(|o| crate::run::apply(&mut m, o).is_ok()).collect::<Vec<bool>>()
+    });
+    let results = run.map_err(|e| e.to_string())?;
+    if !results[1] || !results[2] {
         return Ok(None);
     }
-    let m = parse_movie(&ex.bytes, "prog");
+    let bytes = st.borrow().bytes.clone();
+    let m = parse_movie(&bytes, "prog");
     let s = m.video().and_then(|t| t.samples().ok()).ok_or("unparsable output")?;
     if s.len() != 2 {
         return Err(format!("{} samples for 2 accepted frames", s.len()));
     }
-    Ok(Some(ex.bytes[s[1].offset as usize..s[1].offset as usize + s[1].size as usize].to_vec()))
+    let cut = |i: usize| bytes[s[i].offset as usize..s[i].offset as usize + s[i].size as usize].to_vec();
+    Ok(Some((cut(0), cut(1), k)))
 }
 
 fn judge_through_muxer(d: &[u8], order: (u64, u64), t: &mut Tally) {
@@ -131,16 +145,23 @@ fn judge_through_muxer(d: &[u8], order: (u64, u64), t: &mut Tally) {
         return;
     }
     for codec in [VCodec::H264, VCodec::H265] {
-        t.evaluations += 1;
-        t.count("strings_through_muxer", 1);
-        let case = || json!({"engine": "E2-annexb-mux", "input": hex(d), "codec": codec});
-        match stored_second_frame(codec, d) {
-            Err(e) => t.violation("C14/mux/panic-or-unparsable", order, || format!("{codec:?} input {}: {e}", hex(d)), case),
-            Ok(None) => t.count("mux_rejected", 1),
-            Ok(Some(got)) => {
-                let want = annexb_to_lp(d);
-                if got != want {
-                    t.violation("C14/mux/stored-sample", order, || format!("{codec:?} input {}: stored {}, expected {}", hex(d), hex(&got), hex(&want)), case);
+        for builder_ps in [false, true] {
+            t.evaluations += 1;
+            t.count("strings_through_muxer", 1);
+            let case = || json!({"engine": "E2-annexb-mux", "input": hex(d), "codec": codec, "builder_ps": builder_ps});
+            match stored_frames(codec, d, builder_ps) {
+                Err(e) => t.violation("C14/mux/panic-or-unparsable", order, || format!("{codec:?} input {} (builder parameter sets: {builder_ps}): {e}", hex(d)), case),
+                Ok(None) => t.count("mux_rejected", 1),
+                Ok(Some((first, got, key))) => {
+                    let want = annexb_to_lp(d);
+                    if got != want {
+                        t.violation("C14/mux/stored-sample", order, || format!("{codec:?} input {} (builder parameter sets: {builder_ps}): stored {}, expected {}", hex(d), hex(&got), hex(&want)), case);
+                    }
+                    // the keyframe in front (parameter sets in band) is a sample like any other
+                    let want0 = annexb_to_lp(&key);
+                    if first != want0 {
+                        t.violation("C14/mux/stored-keyframe", order, || format!("{codec:?} (builder parameter sets: {builder_ps}): the keyframe {} is stored as {}, expected {}", hex(&key), hex(&first), hex(&want0)), case);
+                    }
                 }
             }
         }
@@ -424,7 +445,7 @@ pub fn check(ctx: &Ctx) -> i32 {
         &tally,
         Meta {
             level: "exploration",
-            rule: format!("every byte string of length <= {l3} over {{00,01,02}} and <= {l5} over {{00,01,03,65,FF}} through AnnexBNalIter, annexb_to_avcc and hevc_annexb_to_hvcc, compared with a reference splitter written from the statement (occurrences of 00 00 01, each absorbing one preceding unconsumed 00); every string of length <= {mux_len} over {{00,01,02}} additionally submitted as a delta frame to an H.264 and an H.265 muxer and the stored sample read back; {ncons} constructive inputs (all lists of <= 3 units over bodies {{1 byte, ending 00, ending 00 00, containing 00 00 03, empty}} x 3/4-byte start code per unit x leading {{none, 09, 00, 00 00}} x 0-2 trailing zeros); a scaling family (first unit of every length 1..={scale_n} x 3 fillers x 3/4-byte start codes x 0-2 junk bytes, through the converters and the muxers); a unit-count family (1..=40 short units; every 3/4-byte start-code assignment up to 8 units, four regular patterns beyond; 3 body-length patterns; with/without leading junk and trailing zeros); ADTS: all 8192 frame lengths x protection flag x buffer length {{fl-1, fl, fl+1, fl+9}} x 3 header-field variants through write_audio + finish, stored sample read back; 216 pairs of ADTS frames in one stream (protection x header variant x length for either frame x the second frame later or on the same tick). Distinct by output bytes."),
+            rule: format!("every byte string of length <= {l3} over {{00,01,02}} and <= {l5} over {{00,01,03,65,FF}} through AnnexBNalIter, annexb_to_avcc and hevc_annexb_to_hvcc, compared with a reference splitter written from the statement (occurrences of 00 00 01, each absorbing one preceding unconsumed 00); every string of length <= {mux_len} over {{00,01,02}} additionally submitted as a delta frame to an H.264 and an H.265 muxer (each also built with out-of-band parameter sets on the builder) and both stored samples - the keyframe with its in-band parameter sets and the string - read back; {ncons} constructive inputs (all lists of <= 3 units over bodies {{1 byte, ending 00, ending 00 00, containing 00 00 03, empty}} x 3/4-byte start code per unit x leading {{none, 09, 00, 00 00}} x 0-2 trailing zeros); a scaling family (first unit of every length 1..={scale_n} x 3 fillers x 3/4-byte start codes x 0-2 junk bytes, through the converters and the muxers); a unit-count family (1..=40 short units; every 3/4-byte start-code assignment up to 8 units, four regular patterns beyond; 3 body-length patterns; with/without leading junk and trailing zeros); ADTS: all 8192 frame lengths x protection flag x buffer length {{fl-1, fl, fl+1, fl+9}} x 3 header-field variants through write_audio + finish, stored sample read back; 216 pairs of ADTS frames in one stream (protection x header variant x length for either frame x the second frame later or on the same tick). Distinct by output bytes."),
             bound: format!("strings <= {l3} / {l5} bytes; unit lengths 1..={scale_n}; ADTS exhaustive in frame length"),
             exhaustive: true,
             assumptions: vec!["the reference splitter (oracle/src/refmodel.rs) is the statement's definition".into()],
